@@ -586,7 +586,8 @@ cdef class ExtendedZOrderNNPS(ZOrderNNPS):
             bint asymmetric=False):
         ZOrderNNPS.__init__(
             self, dim, particles, radius_scale, ghost_layers, domain,
-            cache, sort_gids, H=H, asymmetric=asymmetric
+            fixed_h=fixed_h, cache=cache, sort_gids=sort_gids, H=H,
+            asymmetric=asymmetric
         )
 
     def __cinit__(self, int dim, list particles, double radius_scale = 2.0,
